@@ -117,6 +117,8 @@ type envText struct{ raw, kind string }
 var badInts = []envText{
 	{"", "unset"}, {"abc", "unparsable"}, {"-1", "negative"}, {"0", "zero"},
 	{"99999999999999999999", "unparsable"}, {" 5 ", "unparsable"}, {"1e3", "unparsable"}, {"NaN", "unparsable"},
+	// set but blank: not empty, not an integer
+	{" ", "unparsable"}, {"\t", "unparsable"},
 }
 
 var maxIntText = envText{"9223372036854775807", "maxint"}
@@ -167,12 +169,12 @@ var envSamplerNames = []envText{
 	{"always_on", "ok"}, {"always_off", "ok"}, {"traceidratio", "ok"}, {"parentbased_always_on", "ok"},
 	{"parentbased_always_off", "ok"}, {"parentbased_traceidratio", "ok"},
 	{"ALWAYS_OFF", "spelling"}, {" always_off ", "spelling"}, {"ParentBased_TraceIdRatio", "spelling"},
-	{"", "bad"}, {"abc", "bad"}, {"jaeger_remote", "bad"}, {"xray", "bad"}, {"parentbased_jaeger_remote", "bad"}, {"always_off,always_on", "bad"},
+	{"", "bad"}, {" ", "bad"}, {"\t", "bad"}, {"abc", "bad"}, {"jaeger_remote", "bad"}, {"xray", "bad"}, {"parentbased_jaeger_remote", "bad"}, {"always_off,always_on", "bad"},
 }
 
 var samplerArgs = []envText{
 	{"0.25", "ok"}, {"0.5", "ok"}, {"0.75", "ok"}, {"0", "ok"}, {"1", "ok"}, {"1e-1", "ok"},
-	{"abc", "bad"}, {"-1", "bad"}, {"2", "bad"}, {"NaN", "bad"}, {"", "bad"}, {"1e3", "bad"}, {"0,5", "bad"},
+	{"abc", "bad"}, {"-1", "bad"}, {"2", "bad"}, {"NaN", "bad"}, {"", "bad"}, {"1e3", "bad"}, {"0,5", "bad"}, {" ", "bad"},
 	{" 0.5 ", "padded"},
 }
 
@@ -296,6 +298,22 @@ func union(a, b accept) accept {
 	return out
 }
 
+// bspNonPositive documents the effective value 0 of the span processor's
+// durations. Nothing is documented for a non-positive BatchTimeout /
+// ExportTimeout; the pinned code gives them these meanings, which are what
+// an application gets and what is asserted (recorded in the assumptions):
+//
+//   - ExportTimeout <= 0: exportSpans only wraps the context "if
+//     bsp.o.ExportTimeout > 0" - the processor imposes no deadline; the
+//     exporter gets the caller's / a background context, never an expired one.
+//   - BatchTimeout <= 0: the timer is always due; a span is exported as soon as
+//     the worker gets to it (asserted like a short delay: within 3 s).
+//
+// The log processor documents "the default value is also used when the
+// provided value is less than one" and clears environment values below one,
+// so it never has an effective 0.
+const bspNonPositive = 0
+
 // envMeaning: what an environment text stands for. decides=false: the
 // variable counts as unset and the next source is consulted. A nil accept
 // with decides=true: the value has no documented meaning, nothing asserted.
@@ -320,8 +338,13 @@ func envMeaning(c SDKCase, s SDKSrc) (a accept, decides bool) {
 			if c.Setting == "batch_size" || c.Setting == "queue_size" {
 				return def, true
 			}
+			return accept{0}, true // durations: see bspNonPositive
+		case "zero":
+			if c.Setting == "schedule_delay" || c.Setting == "export_timeout" {
+				return accept{0}, true
+			}
 			return nil, true
-		default: // zero, maxint
+		default: // maxint
 			return nil, true
 		}
 	case "blrp":
@@ -399,7 +422,10 @@ func resolve(c SDKCase) accept {
 	n := c.Opt.N
 	switch c.Comp {
 	case "bsp":
-		if (c.Setting == "batch_size" || c.Setting == "queue_size") && n < 0 {
+		if c.Setting == "schedule_delay" || c.Setting == "export_timeout" {
+			return accept{0} // non-positive duration, see bspNonPositive
+		}
+		if n < 0 {
 			return accept{d.def}
 		}
 		return nil
@@ -426,7 +452,9 @@ type spanRec struct {
 	mu        sync.Mutex
 	batches   []int
 	deadlines []time.Duration // -1 = no deadline
-	gate      chan struct{}   // first export blocks until closed (nil = never blocks)
+	refused   int             // items handed over with a context that was already done
+	refusedBy error
+	gate      chan struct{} // first export blocks until closed (nil = never blocks)
 	entered   chan struct{}
 	once      sync.Once
 	first     chan struct{}
@@ -440,10 +468,22 @@ func newSpanRec(gated bool) *spanRec {
 	return r
 }
 
-func (r *spanRec) note(ctx context.Context, n int) {
+// note is the body of a well-behaved exporter: like a network exporter it
+// honours the context it is given (an export whose context is already done
+// fails with the context's error and delivers nothing) and records the
+// deadline it was given.
+func (r *spanRec) note(ctx context.Context, n int) error {
 	dl := time.Duration(-1)
 	if d, ok := ctx.Deadline(); ok {
 		dl = time.Until(d)
+	}
+	if err := ctx.Err(); err != nil {
+		r.mu.Lock()
+		r.deadlines = append(r.deadlines, dl)
+		r.refused += n
+		r.refusedBy = err
+		r.mu.Unlock()
+		return err
 	}
 	r.mu.Lock()
 	r.batches = append(r.batches, n)
@@ -455,11 +495,17 @@ func (r *spanRec) note(ctx context.Context, n int) {
 		close(r.entered)
 		<-r.gate
 	}
+	return nil
 }
 
 func (r *spanRec) ExportSpans(ctx context.Context, ss []sdktrace.ReadOnlySpan) error {
-	r.note(ctx, len(ss))
-	return nil
+	return r.note(ctx, len(ss))
+}
+
+func (r *spanRec) refusals() (int, error) {
+	r.mu.Lock()
+	defer r.mu.Unlock()
+	return r.refused, r.refusedBy
 }
 func (r *spanRec) Shutdown(context.Context) error { return nil }
 
@@ -478,8 +524,7 @@ func (r *spanRec) stats() (max, total int, dls []time.Duration) {
 type logRec struct{ spanRec }
 
 func (r *logRec) Export(ctx context.Context, rs []sdklog.Record) error {
-	r.note(ctx, len(rs))
-	return nil
+	return r.note(ctx, len(rs))
 }
 func (r *logRec) ForceFlush(context.Context) error { return nil }
 
@@ -510,6 +555,36 @@ func (r *sdkRun) bad(kind string, format string, a ...any) {
 func (r *sdkRun) checkDone(what string, err error) {
 	if err != nil && (err == context.DeadlineExceeded || strings.Contains(err.Error(), "deadline exceeded")) {
 		r.bad("hang", "%s did not finish within 90 s: %v", what, err)
+	}
+}
+
+// flushed judges ForceFlush / Shutdown of a batch processor whose exporter is
+// healthy (never fails unless it is handed a context that is already done):
+// both must return nil, also for the values that have no documented meaning.
+func (r *sdkRun) flushed(what string, err error, timeoutCtx bool) {
+	switch {
+	case err == nil:
+	case timeoutCtx && (err == context.DeadlineExceeded || strings.Contains(err.Error(), "deadline exceeded")):
+		r.bad("hang", "%s did not finish within 90 s: %v", what, err)
+	default:
+		r.bad("flush_error", "%s returned %q although the exporter is healthy (%s)", what, err.Error(), describeSDK(r.c))
+	}
+}
+
+// live: no export may be attempted with a context that is already done.
+func (r *sdkRun) live(rec *spanRec) {
+	if refused, by := rec.refusals(); refused > 0 {
+		r.bad("export_context_already_done", "%d items were handed to the exporter with a context that was already done (%v) (%s)", refused, by, describeSDK(r.c))
+	}
+}
+
+// delivered: everything ended / emitted before ForceFlush must have reached
+// the exporter, with a context that was still live.
+func (r *sdkRun) delivered(rec *spanRec, emitted int) {
+	_, total, _ := rec.stats()
+	r.live(rec)
+	if total != emitted {
+		r.bad("not_delivered", "%d items ended before ForceFlush and Shutdown (nothing can be dropped in this configuration), %d delivered to the exporter (%s)", emitted, total, describeSDK(r.c))
 	}
 }
 
@@ -611,6 +686,11 @@ func runBSP(r *sdkRun, acc accept) {
 		opts = append(opts, sdktrace.WithBatchTimeout(time.Hour), sdktrace.WithMaxExportBatchSize(1))
 		focusOpt(sdktrace.WithMaxQueueSize(int(c.Opt.N)))
 		gated = acc != nil
+		if !gated {
+			// no asserted capacity (0, ...): block instead of dropping, so that
+			// "everything is delivered" is a fair demand
+			opts = append(opts, sdktrace.WithBlocking())
+		}
 	case "schedule_delay":
 		focusOpt(sdktrace.WithBatchTimeout(time.Duration(c.Opt.N) * time.Millisecond))
 	case "export_timeout":
@@ -633,12 +713,13 @@ func runBSP(r *sdkRun, acc accept) {
 			ctx, cancel = noDeadlineCtx()
 		}
 		defer cancel()
-		r.checkDone("ForceFlush", tp.ForceFlush(ctx))
-		r.checkDone("Shutdown", tp.Shutdown(ctx))
+		r.flushed("ForceFlush", tp.ForceFlush(ctx), c.Setting != "export_timeout")
+		r.flushed("Shutdown", tp.Shutdown(ctx), c.Setting != "export_timeout")
 	}
 	if acc == nil {
 		emit(3)
 		finish()
+		r.delivered(rec, 3)
 		return
 	}
 	var hi int64
@@ -651,10 +732,8 @@ func runBSP(r *sdkRun, acc accept) {
 	case "batch_size":
 		emit(int(hi) + 3)
 		finish()
-		max, total, _ := rec.stats()
-		if total != int(hi)+3 {
-			r.bad("harness_assumption", "%d spans ended with a blocking processor, %d exported", hi+3, total)
-		}
+		max, _, _ := rec.stats()
+		r.delivered(rec, int(hi)+3)
 		if !acc.has(int64(max)) {
 			r.bad("bsp_batch_size", "largest batch handed to the exporter has %d spans, expected a maximal batch size of %v (%s)", max, acc, describeSDK(c))
 		}
@@ -671,6 +750,7 @@ func runBSP(r *sdkRun, acc accept) {
 		emit(int(hi) + 5)
 		close(rec.gate)
 		finish()
+		r.live(rec)
 		_, total, _ := rec.stats()
 		if !acc.has(int64(total - 1)) {
 			r.bad("bsp_queue_size", "with the exporter blocked, %d of %d ended spans were kept (queue capacity), expected %v (%s)", total-1, hi+5, acc, describeSDK(c))
@@ -692,9 +772,11 @@ func runBSP(r *sdkRun, acc accept) {
 			}
 		}
 		finish()
+		r.delivered(rec, 1)
 	case "export_timeout":
 		emit(1)
 		finish()
+		r.delivered(rec, 1)
 		_, _, dls := rec.stats()
 		if len(dls) == 0 {
 			r.bad("harness_assumption", "no export observed")
@@ -706,6 +788,12 @@ func runBSP(r *sdkRun, acc accept) {
 
 func checkDeadline(r *sdkRun, kind string, got time.Duration, acc accept) {
 	for _, a := range acc {
+		if a == bspNonPositive {
+			if got < 0 { // no deadline imposed by the processor
+				return
+			}
+			continue
+		}
 		t := time.Duration(a) * time.Millisecond
 		if got > t/2 && got <= t {
 			return
@@ -715,7 +803,7 @@ func checkDeadline(r *sdkRun, kind string, got time.Duration, acc accept) {
 	if got < 0 {
 		obs = "no deadline"
 	}
-	r.bad(kind, "the exporter's context has %s left, expected an export timeout of %v ms (%s)", obs, acc, describeSDK(r.c))
+	r.bad(kind, "the exporter's context has %s left, expected an export timeout of %v ms (0 = no deadline from the processor) (%s)", obs, acc, describeSDK(r.c))
 }
 
 // ---- log batch processor ----
@@ -760,12 +848,13 @@ func runBLRP(r *sdkRun, acc accept) {
 			ctx, cancel = noDeadlineCtx()
 		}
 		defer cancel()
-		r.checkDone("ForceFlush", lp.ForceFlush(ctx))
-		r.checkDone("Shutdown", lp.Shutdown(ctx))
+		r.flushed("ForceFlush", lp.ForceFlush(ctx), c.Setting != "export_timeout")
+		r.flushed("Shutdown", lp.Shutdown(ctx), c.Setting != "export_timeout")
 	}
 	if acc == nil {
 		emit(3)
 		finish()
+		r.delivered(&rec.spanRec, 3)
 		return
 	}
 	var hi int64
@@ -778,10 +867,8 @@ func runBLRP(r *sdkRun, acc accept) {
 	case "batch_size":
 		emit(int(hi) + 3)
 		finish()
-		max, total, _ := rec.stats()
-		if total != int(hi)+3 {
-			r.bad("harness_assumption", "%d records emitted below the queue size, %d exported", hi+3, total)
-		}
+		max, _, _ := rec.stats()
+		r.delivered(&rec.spanRec, int(hi)+3)
 		if !acc.has(int64(max)) {
 			r.bad("blrp_batch_size", "largest batch handed to the exporter has %d records, expected a maximal batch size of %v (%s)", max, acc, describeSDK(c))
 		}
@@ -798,6 +885,7 @@ func runBLRP(r *sdkRun, acc accept) {
 		emit(int(hi) + 10)
 		close(rec.gate)
 		finish()
+		r.live(&rec.spanRec)
 		_, total, _ := rec.stats()
 		// one record is inside the blocked exporter, at most one more sits in
 		// the export buffer: capacity+1 <= total <= capacity+2
@@ -820,6 +908,7 @@ func runBLRP(r *sdkRun, acc accept) {
 		}
 		if short && len(acc) > 1 {
 			finish() // option below one with a short interval in the environment: either reading
+			r.delivered(&rec.spanRec, 1)
 			return
 		}
 		if short {
@@ -836,9 +925,11 @@ func runBLRP(r *sdkRun, acc accept) {
 			}
 		}
 		finish()
+		r.delivered(&rec.spanRec, 1)
 	case "export_timeout":
 		emit(1)
 		finish()
+		r.delivered(&rec.spanRec, 1)
 		_, _, dls := rec.stats()
 		if len(dls) == 0 {
 			r.bad("harness_assumption", "no export observed")
